@@ -61,6 +61,11 @@ func Dump(v reflect.Value, depth int) any {
 	}
 	t := v.Type()
 	if isOpaque(t) {
+		if st, ok := v.Interface().(sup.Stamp); ok {
+			// Stamp has no JSON methods of its own (it is bound with free functions)
+			b, _ := sup.MarshalStamp(&st)
+			return node{"t": "val", "type": t.String(), "v": json.RawMessage(b), "zero": st.IsZero()}
+		}
 		b, err := json.Marshal(v.Interface())
 		if err != nil {
 			return node{"t": "val", "type": t.String(), "err": err.Error()}
@@ -111,12 +116,16 @@ func Dump(v reflect.Value, depth int) any {
 		// getters (value or pointer receiver), zero-argument, one result
 		gs := node{}
 		pv := v
-		if v.CanAddr() {
+		if v.CanAddr() && v.CanInterface() {
 			pv = v.Addr()
-		} else {
+		} else if v.CanInterface() {
 			c := reflect.New(t)
 			c.Elem().Set(v)
 			pv = c
+		} else {
+			// reached through an unexported (lower-case fragment name) embedded field: reflection may read
+			// but not call methods on it; the promoted getters of the outer struct cover it
+			return n
 		}
 		pt := pv.Type()
 		for i := 0; i < pt.NumMethod(); i++ {
